@@ -224,6 +224,22 @@ Definition jsonclass_key : val := VStr "__jsonclass__".
 Definition has_dict (d : classdef) : bool :=
   match c_kind d with KDict | KSer _ => true | _ => false end.
 
+(** ** Traversal combinators.  The comprehensions and loops of dump / load are written once,
+    over the function applied to the members, so that the recursive models below stay
+    structurally recursive (nested recursion through these, as through [List.map]). *)
+
+(** [[f(x) for x in l]]: the first exception wins *)
+Definition mapM {A B} (f : A -> res B) : list A -> res (list B) :=
+  fix go (l : list A) : res (list B) :=
+    match l with
+    | [] => Ok []
+    | x :: xs => do y <- f x; do ys <- go xs; Ok (y :: ys)
+    end.
+
+(** [{key: f(value) for key, value in m.items()}] *)
+Definition mapM_values (f : val -> res val) (m : list (val * val)) : res (list (val * val)) :=
+  mapM (fun kv => do y <- f (snd kv); Ok (fst kv, y)) m.
+
 (** ** dump (103-216) *)
 
 Section Dump.
@@ -256,26 +272,49 @@ Section Dump.
   (** 197: fields.difference_update(ignore_list) — by name *)
   Definition name_ignored (k : str) (ignl : list val) : bool := existsb (py_eq (VStr k)) ignl.
 
-  Fixpoint jc_dump (v : val) {struct v} : res val :=
-    let fix dump_list (l : list val) : res (list val) :=
-      match l with
+  (** 199-213: the loop over the (name-filtered) fields; [f] is the recursive dump *)
+  Definition dump_fields (f : val -> res val) (ignl : list val) : list (str * val) -> res (list (val * val)) :=
+    fix go (fs : list (str * val)) : res (list (val * val)) :=
+      match fs with
       | [] => Ok []
-      | x :: xs => do y <- jc_dump x; do ys <- dump_list xs; Ok (y :: ys)
-      end in
+      | kx :: r =>
+          if name_ignored (fst kx) ignl then go r                            (* 197 *)
+          else if known_type E cfg (snd kx) && negb (existsb (py_eq (snd kx)) ignl)      (* 203-206 *)
+          then do y <- f (snd kx); do ys <- go r; Ok ((VStr (fst kx), y) :: ys)
+          else go r
+      end.
+
+  (** the generated serialisation methods: ([self.p for p in params] or {p: self.p}, the other attributes) *)
+  Fixpoint get_params (fields : list (str * val)) (ps : list str) : res (list (str * val)) :=
+    match ps with
+    | [] => Ok []
+    | p :: r => match flookup p fields with
+                | Some x => do xs <- get_params fields r; Ok ((p, x) :: xs)
+                | None => Raise EAttr
+                end
+    end.
+
+  Definition serialize_call (ds : classdef) (fields : list (str * val)) : res (val * list (str * val)) :=
+    do ps <- get_params fields (c_params ds);
+    Ok (match c_kind ds with
+        | KSer true => VDict (map (fun px => (VStr (fst px), snd px)) ps)
+        | _ => VList (map snd ps)
+        end,
+        filter (fun kx => negb (mem_str (fst kx) (c_params ds))) fields).
+
+  Definition descriptor_dict (name params : val) (attrs : list (val * val)) : val :=
+    VDict (dupdate [(jsonclass_key, VList [name; params])] attrs).
+
+  Fixpoint jc_dump (v : val) {struct v} : res val :=
     match handler_for cfg (type_of v) with
     | Some h => hfun h v                                            (* 131-140: verbatim *)
     | None =>
         match v with
         | VNone | VBool _ | VInt _ | VFlt _ | VStr _ => Ok v        (* 143-144 *)
         | VList l | VTuple l | VSet l | VFrozen l =>                (* 147-152 *)
-            do ys <- dump_list l; Ok (VList ys)
+            do ys <- mapM jc_dump l; Ok (VList ys)
         | VDict m =>                                                (* 154-159 *)
-            do ys <- (fix dump_items (m : list (val * val)) : res (list (val * val)) :=
-                        match m with
-                        | [] => Ok []
-                        | (k, x) :: r => do y <- jc_dump x; do ys <- dump_items r; Ok ((k, y) :: ys)
-                        end) m;
-            Ok (VDict ys)
+            do ys <- mapM_values jc_dump m; Ok (VDict ys)
         | VInst c fields =>                                         (* 161-216 *)
             match find_class (e_ctab E) c with
             | None => Raise EUnmodelled
@@ -286,50 +325,29 @@ Section Dump.
                 | None =>
                     match mro_find (e_ctab E) c (fun d' => negb (String.eqb sm "") && String.eqb (c_ser_name d') sm) with
                     | Some ds =>                                    (* 172-178: params, attrs = serialize() *)
-                        do ps <- (fix get_params (ps : list str) : res (list (str * val)) :=
-                                    match ps with
-                                    | [] => Ok []
-                                    | p :: r => match flookup p fields with
-                                                | Some x => do xs <- get_params r; Ok ((p, x) :: xs)
-                                                | None => Raise EAttr
-                                                end
-                                    end) (c_params ds);
-                        let params := match c_kind ds with
-                                      | KSer true => VDict (map (fun px => (VStr (fst px), snd px)) ps)
-                                      | _ => VList (map snd ps)
-                                      end in
-                        let attrs := filter (fun kx => negb (mem_str (fst kx) (c_params ds))) fields in
-                        Ok (VDict (dupdate [(jsonclass_key, VList [name; params])]
-                                           (map (fun kx => (VStr (fst kx), snd kx)) attrs)))
+                        do pa <- serialize_call ds fields;
+                        Ok (descriptor_dict name (fst pa) (map (fun kx => (VStr (fst kx), snd kx)) (snd pa)))
                     | None =>                                       (* 185-214 *)
                         do ignl <- ignore_list c fields;
                         if negb (forallb hashable ignl) then Raise EType     (* set.difference_update *)
                         else
-                        do attrs <- (fix dump_fields (fs : list (str * val)) : res (list (val * val)) :=
-                                       match fs with
-                                       | [] => Ok []
-                                       | (k, x) :: r =>
-                                           if name_ignored k ignl then dump_fields r
-                                           else if known_type E cfg x && negb (existsb (py_eq x) ignl)
-                                           then do y <- jc_dump x; do ys <- dump_fields r; Ok ((VStr k, y) :: ys)
-                                           else dump_fields r
-                                       end) fields;
+                        do attrs <- dump_fields jc_dump ignl fields;
                         (* a slot that was never assigned: getattr raises *)
                         if forallb (fun s => match flookup s fields with Some _ => true | None => name_ignored s ignl end)
                                    (slots_finder V (e_ctab E) c)
-                        then Ok (VDict (dupdate [(jsonclass_key, VList [name; VList []])] attrs))
+                        then Ok (descriptor_dict name (VList []) attrs)
                         else Raise EAttr
                     end
                 end
             end
         | VDec s =>                                                 (* 179-181 *)
             match find_class (e_ctab E) "decimal.Decimal" with
-            | Some d => Ok (VDict [(jsonclass_key, VList [VStr (dump_name d); VList [VStr s]])])
+            | Some d => Ok (descriptor_dict (VStr (dump_name d)) (VList [VStr s]) [])
             | None => Raise EUnmodelled
             end
         | VEnum c m =>                                              (* 182-184: the value is emitted as is *)
             match find_class (e_ctab E) c with
-            | Some d => Ok (VDict [(jsonclass_key, VList [VStr (dump_name d); VList [m]])])
+            | Some d => Ok (descriptor_dict (VStr (dump_name d)) (VList [m]) [])
             | None => Raise EUnmodelled
             end
         | VOpaque _ => Raise EUnmodelled
@@ -509,74 +527,90 @@ Definition descriptor_head (E : pyenv) (classes : list (str * str)) (m : list (v
 
 Definition lres := (res val * val * list event)%type.
 
+(** the caller's dict between the pop of line 316 and the restore of line 323 *)
+Definition drop_jc (m : list (val * val)) : list (val * val) :=
+  filter (fun kv => negb (py_eq jsonclass_key (fst kv))) m.
+
+(** [[f(entry) for entry in l]] with the argument threaded: result, the entries as the caller
+    finds them afterwards, events.  Entries after a failing one are not visited. *)
+Definition load_seq (f : val -> lres) : list val -> res (list val) * list val * list event :=
+  fix go (l : list val) :=
+    match l with
+    | [] => (Ok [], [], [])
+    | x :: xs =>
+        let '(r, x', ev) := f x in
+        match r with
+        | Raise e => (Raise e, x' :: xs, ev)
+        | Ok y =>
+            let '(rs, xs', evs) := go xs in
+            (match rs with Ok ys => Ok (y :: ys) | Raise e => Raise e end, x' :: xs', (ev ++ evs)%list)
+        end
+    end.
+
+(** [{key: f(value) for key, value in m.items()}], threaded likewise *)
+Definition load_items (f : val -> lres) : list (val * val) -> res (list (val * val)) * list (val * val) * list event :=
+  fix go (m : list (val * val)) :=
+    match m with
+    | [] => (Ok [], [], [])
+    | kx :: rest =>
+        let '(r, x', ev) := f (snd kx) in
+        match r with
+        | Raise e => (Raise e, (fst kx, x') :: rest, ev)
+        | Ok y =>
+            let '(rs, rest', evs) := go rest in
+            (match rs with Ok ys => Ok ((fst kx, y) :: ys) | Raise e => Raise e end,
+             (fst kx, x') :: rest', (ev ++ evs)%list)
+        end
+    end.
+
+(** 318-320: [for key, value in obj.items(): setattr(new_obj, key, f(value))] over the caller's
+    dict from which "__jsonclass__" has been popped (316): the loop walks the dict and skips the
+    popped entry (keys are unique, so this is the dict without that key).  Returns the object,
+    the remaining entries as the caller finds them, events. *)
+Definition setattr_loop (E : pyenv) (f : val -> lres)
+  : list (val * val) -> val -> res val * list (val * val) * list event :=
+  fix go (items : list (val * val)) (obj : val) {struct items} :=
+    match items with
+    | [] => (Ok obj, [], [])
+    | kx :: more =>
+        if py_eq jsonclass_key (fst kx) then go more obj else
+        let '(r, x', ev) := f (snd kx) in
+        match r with
+        | Raise e => (Raise e, (fst kx, x') :: drop_jc more, ev)
+        | Ok y =>
+            match py_setattr E obj (fst kx) y with
+            | Raise e => (Raise e, (fst kx, x') :: drop_jc more, ev)
+            | Ok obj' =>
+                let '(r2, more', ev2) := go more obj' in
+                (r2, (fst kx, x') :: more', (ev ++ ev2)%list)
+            end
+        end
+    end.
+
 Section Load.
   Variable V : variant.
   Variable E : pyenv.
 
   Fixpoint jc_load_m (classes : list (str * str)) (v : val) {struct v} : lres :=
     let inner := if v_forward V then classes else [] in               (* 238, 242 *)
-    let fix load_list (l : list val) : res (list val) * list val * list event :=
-      match l with
-      | [] => (Ok [], [], [])
-      | x :: xs =>
-          let '(r, x', ev) := jc_load_m inner x in
-          match r with
-          | Raise e => (Raise e, x' :: xs, ev)
-          | Ok y =>
-              let '(rs, xs', evs) := load_list xs in
-              (match rs with Ok ys => Ok (y :: ys) | Raise e => Raise e end, x' :: xs', (ev ++ evs)%list)
-          end
-      end in
     match v with
     | VNone | VBool _ | VInt _ | VFlt _ | VStr _ => (Ok v, v, [])     (* 232-233 *)
-    | VList l => let '(r, l', ev) := load_list l in (do ys <- r; Ok (VList ys), VList l', ev)    (* 236-238 *)
-    | VTuple l => let '(r, l', ev) := load_list l in (do ys <- r; Ok (VList ys), VTuple l', ev)
-    | VSet l => let '(r, l', ev) := load_list l in (do ys <- r; Ok (VList ys), VSet l', ev)
-    | VFrozen l => let '(r, l', ev) := load_list l in (do ys <- r; Ok (VList ys), VFrozen l', ev)
+    | VList l =>                                                      (* 236-238 *)
+        let '(r, l', ev) := load_seq (jc_load_m inner) l in (do ys <- r; Ok (VList ys), VList l', ev)
+    | VTuple l => let '(r, l', ev) := load_seq (jc_load_m inner) l in (do ys <- r; Ok (VList ys), VTuple l', ev)
+    | VSet l => let '(r, l', ev) := load_seq (jc_load_m inner) l in (do ys <- r; Ok (VList ys), VSet l', ev)
+    | VFrozen l => let '(r, l', ev) := load_seq (jc_load_m inner) l in (do ys <- r; Ok (VList ys), VFrozen l', ev)
     | VDict m =>
         if negb (dhas m "__jsonclass__") then                         (* 241-242 *)
-          let '(r, m', ev) :=
-            (fix load_items (m : list (val * val)) : res (list (val * val)) * list (val * val) * list event :=
-               match m with
-               | [] => (Ok [], [], [])
-               | (k, x) :: rest =>
-                   let '(r, x', ev) := jc_load_m inner x in
-                   match r with
-                   | Raise e => (Raise e, (k, x') :: rest, ev)
-                   | Ok y =>
-                       let '(rs, rest', evs) := load_items rest in
-                       (match rs with Ok ys => Ok ((k, y) :: ys) | Raise e => Raise e end,
-                        (k, x') :: rest', (ev ++ evs)%list)
-                   end
-               end) m in
+          let '(r, m', ev) := load_items (jc_load_m inner) m in
           (do ys <- r; Ok (VDict ys), VDict m', ev)
         else
           match descriptor_head E classes m with                      (* 245-312 *)
           | (Raise e, ev) => (Raise e, VDict m, ev)
           | (Ok new_obj, ev) =>
               let raw := match dget m "__jsonclass__" with Some x => x | None => VNone end in
-              (* 316: pop — the loop below walks the caller's dict and skips the popped entry
-                 (keys are unique, so this is [ddel m "__jsonclass__"]) *)
-              let '(r, rest', ev2) :=
-                (fix setattr_loop (items : list (val * val)) (obj : val) {struct items}
-                   : res val * list (val * val) * list event :=
-                   match items with
-                   | [] => (Ok obj, [], [])
-                   | (k, x) :: more =>
-                       if py_eq jsonclass_key k then setattr_loop more obj else
-                       let '(r, x', ev) := jc_load_m classes x in     (* 320 *)
-                       match r with
-                       | Raise e => (Raise e, (k, x') :: more, ev)
-                       | Ok y =>
-                           match py_setattr E obj k y with
-                           | Raise e => (Raise e, (k, x') :: more, ev)
-                           | Ok obj' =>
-                               let '(r2, more', ev2) := setattr_loop more obj' in
-                               (r2, (k, x') :: more', (ev ++ ev2)%list)
-                           end
-                       end
-                   end) m new_obj in
-              let restored := (rest' ++ [(jsonclass_key, raw)])%list in   (* 323 *)
+              let '(r, rest', ev2) := setattr_loop E (jc_load_m classes) m new_obj in      (* 316-320 *)
+              let restored := (rest' ++ [(jsonclass_key, raw)])%list in                     (* 323 *)
               (r,
                match r with
                | Ok _ => VDict restored
@@ -675,6 +709,81 @@ Fixpoint leaves (v : val) : list val :=
   | VDict m => flat_map (fun kv => leaves (snd kv)) m
   | _ => [v]
   end.
+
+(** the value with the "__jsonclass__" entry of every dict moved to the end: two Python values
+    with the same [canon] are [==] (dict comparison ignores the order of the entries) *)
+Fixpoint canon (v : val) : val :=
+  match v with
+  | VList l => VList (map canon l)
+  | VTuple l => VTuple (map canon l)
+  | VSet l => VSet (map canon l)
+  | VFrozen l => VFrozen (map canon l)
+  | VDict m =>
+      let m' := map (fun kv => (fst kv, canon (snd kv))) m in
+      VDict (drop_jc m' ++ match dget m' "__jsonclass__" with Some x => [(jsonclass_key, x)] | None => [] end)
+  | _ => v
+  end.
+
+(** C08: the class name of a descriptor is a non-empty string over [a-zA-Z0-9_.] *)
+Definition name_ok (name : val) : bool :=
+  match name with
+  | VStr s => negb (String.eqb s "") && valid_name s
+  | _ => false
+  end.
+
+(** "otherwise well-formed": the "__jsonclass__" member is a list of length >= 2 whose second
+    element is a list or a dict *)
+Definition descriptor_shape (jc : val) : option (val * val) :=
+  match jc with
+  | VList (name :: params :: _) =>
+      match params with
+      | VList _ | VDict _ => Some (name, params)
+      | _ => None
+      end
+  | _ => None
+  end.
+
+(** positions load traverses: items of the four iterable kinds and values of descriptor-free dicts
+    (C08: a rejected descriptor at any depth); [plug f x] puts [x] at the hole of the frame *)
+Inductive frame :=
+| FList (pre post : list val) | FTuple (pre post : list val)
+| FSet (pre post : list val) | FFrozen (pre post : list val)
+| FDict (pre : list (val * val)) (k : val) (post : list (val * val)).
+
+Definition plug (f : frame) (x : val) : val :=
+  match f with
+  | FList pre post => VList (pre ++ x :: post)
+  | FTuple pre post => VTuple (pre ++ x :: post)
+  | FSet pre post => VSet (pre ++ x :: post)
+  | FFrozen pre post => VFrozen (pre ++ x :: post)
+  | FDict pre k post => VDict (pre ++ (k, x) :: post)
+  end.
+
+(** outermost frame first *)
+Definition plugs (fs : list frame) (x : val) : val := fold_right plug x fs.
+
+Definition loads_ok (V : variant) (E : pyenv) (cl : list (str * str)) (x : val) : bool :=
+  match lres_val (jc_load_m V E cl x) with Ok _ => true | Raise _ => false end.
+
+(** the members visited before the hole load successfully; a dict frame is not itself a descriptor *)
+Definition frame_ok (V : variant) (E : pyenv) (cl : list (str * str)) (f : frame) : bool :=
+  match f with
+  | FList pre _ | FTuple pre _ | FSet pre _ | FFrozen pre _ => forallb (loads_ok V E cl) pre
+  | FDict pre k post =>
+      forallb (fun kv => loads_ok V E cl (snd kv)) pre &&
+      negb (dhas (pre ++ (k, VNone) :: post) "__jsonclass__")
+  end.
+
+(** events of the members visited before the hole *)
+Definition frame_events (V : variant) (E : pyenv) (cl : list (str * str)) (f : frame) : list event :=
+  match f with
+  | FList pre _ | FTuple pre _ | FSet pre _ | FFrozen pre _ =>
+      flat_map (fun x => lres_events (jc_load_m V E cl x)) pre
+  | FDict pre _ _ => flat_map (fun kv => lres_events (jc_load_m V E cl (snd kv))) pre
+  end.
+
+Definition is_prim (v : val) : bool :=
+  match v with VNone | VBool _ | VInt _ | VFlt _ | VStr _ => true | _ => false end.
 
 Definition no_handlers (cfg : config) : bool :=
   match cf_handlers cfg with [] => true | _ => false end.
